@@ -400,6 +400,8 @@ class J1939_21:
             if buffer_hash in self._snd_buffer and self._snd_buffer[buffer_hash]['pgn'] == pgn and self._snd_buffer[buffer_hash]['state'] == self.SendBufferState.WAITING_CTS:
                 self._snd_buffer[buffer_hash]['state'] = self.SendBufferState.TRANSMISSION_FINISHED
                 self._snd_buffer[buffer_hash]['deadline'] = time.time()
+                # the job thread releases the session: it must not sleep on until the old deadline
+                self.__job_thread_wakeup()
             # TODO: any more abort responses?
             pass
         else:
